@@ -22,7 +22,14 @@ fn rel_diff(x: f64, y: f64) -> f64 {
     } else if y == 0. {
         x.abs()
     } else {
-        (x - y).abs() / x.abs().min(y.abs())
+        let diff = (x - y).abs();
+        if diff.is_infinite() {
+            // infinitely far apart; for inf and -inf the quotient below would be inf / inf = NaN,
+            // which no tolerance test rejects
+            diff
+        } else {
+            diff / x.abs().min(y.abs())
+        }
     }
 }
 
